@@ -222,8 +222,9 @@ def main(argv=None):
                                'sat answers are replayed on real torch before being reported. ' + meta.get('explanation', ''),
                 'evaluations': len(results),
                 'distinct_nontrivial': nontrivial,
-                'rule': meta.get('rule', 'one evaluation = one configuration executed symbolically and decided; non-trivial = at least one '
-                                         'residual that was not identically zero was sent to the solver'),
+                'rule': meta.get('rule', 'one evaluation = one configuration executed symbolically and decided; non-trivial = the configuration produced at least one '
+                                         'non-constant symbolic expression that was compared (residuals that vanish identically after normalisation are counted under '
+                                         'trivial_zero, all others are sent to z3)'),
                 'samples': to_jsonable(samples),
                 'obligations': agg['queries'] + agg['trivial_zero'],
                 'discharged': agg['unsat'] + agg['trivial_zero'],
